@@ -2,10 +2,11 @@
    Only statements, `exact` of lemmas proved in Proofs/Fri*.v, Print Assumptions, non-vacuity examples.
    Model: Model/Fri.v (hand-written from fri/src, tied to the source by the correspondence run of checks/c15.py). *)
 From Coq Require Import List Arith Bool Lia ZArith.
-From VBase Require Import FieldOps.
+From VBase Require Import FieldOps MachInt.
+From VGen Require Import FriInt.
 From VModel Require Import Merkle Fri FriMerkle.
 From VBase Require Import ZpOps.
-From VProofs Require Import FriIdx FriField FriInterp FriProver FriRoots FriCoset FriComplete FriMerkleInst FriFields ZpLaws.
+From VProofs Require Import FriIdx FriField FriInterp FriProver FriRoots FriCoset FriComplete FriMerkleInst FriFields FriGen ZpLaws.
 Import ListNotations.
 Local Open Scope nat_scope.
 
@@ -412,3 +413,42 @@ Proof.
   - reflexivity.
   - intros H. apply (f_equal zp_val) in H. vm_compute in H. discriminate.
 Qed.
+
+(* ================================================================ round 4: the model computes the GENERATED integer terms *)
+(* coq/Gen/FriInt.v is regenerated from fri/src by rs2v on every run of the check (unit FriInt); the theorems below say
+   that the hand model's functions compute exactly those terms, for values in the usize range. *)
+Theorem C15_gen_options_new : forall b n r,
+  options_new b n r = if fri_options_new_checks_ok (Z.of_nat b) (Z.of_nat n) (Z.of_nat r) then Ok (mkOpts b n r) else Panic.
+Proof. exact options_new_gen. Qed.
+Print Assumptions C15_gen_options_new.
+
+(* num_fri_layers = the generated fuelled while loop (fuel domain_size + 1), when (remainder_max_degree + 1) * blowup and
+   domain_size + 1 fit into a usize (the Rust multiplication is unchecked in release and panics in debug otherwise) *)
+Theorem C15_gen_num_fri_layers : forall o d, fo_folding o <> 0 ->
+  (Z.of_nat d + 1 < 2 ^ 64)%Z -> (Z.of_nat ((fo_remmax o + 1) * fo_blowup o) < 2 ^ 64)%Z -> u64 (fo_remmax o + 1) ->
+  option_map Z.of_nat (num_fri_layers o d) = fri_num_fri_layers (S d) (gopts o) (Z.of_nat d).
+Proof. exact num_fri_layers_gen. Qed.
+Print Assumptions C15_gen_num_fri_layers.
+
+Theorem C15_gen_fold_positions : forall ps d ff, ff <> 0 -> (d / ff <> 0 \/ ps = []) ->
+  fold_positions ps d ff = Ok (fold_positions_core ps (Z.to_nat (fri_fold_target_size (Z.of_nat d) (Z.of_nat ff)))).
+Proof. exact fold_positions_gen. Qed.
+Print Assumptions C15_gen_fold_positions.
+
+Theorem C15_gen_map_positions_to_indexes : forall ps d ff np, np <> 1 -> np <> 0 -> ff <> 0 ->
+  (forall p, In p ps -> fri_map_position_index_ok (Z.of_nat p) (Z.of_nat np)
+                          (fri_map_positions_sizes (Z.of_nat d) (Z.of_nat ff) (Z.of_nat np)) = true) ->
+  map_positions_to_indexes ps d ff np
+  = Ok (map (fun p => Z.to_nat (fri_map_position_index (Z.of_nat p) (Z.of_nat np)
+                                  (fri_map_positions_sizes (Z.of_nat d) (Z.of_nat ff) (Z.of_nat np)))) ps).
+Proof. exact map_positions_to_indexes_gen. Qed.
+Print Assumptions C15_gen_map_positions_to_indexes.
+
+(* divisions by the folding factor: running degree bound, domain size, row length of get_query_values, folded domain *)
+Theorem C15_gen_layer_divisions : forall x N, N <> 0 ->
+  fri_verify_layer_degree_update (Z.of_nat x) (Z.of_nat N) = Z.of_nat (x / N) /\
+  fri_verify_layer_domain_update (Z.of_nat x) (Z.of_nat N) = Z.of_nat (x / N) /\
+  fri_query_row_length (Z.of_nat x) (Z.of_nat N) = Z.of_nat (x / N) /\
+  fri_fold_target_size (Z.of_nat x) (Z.of_nat N) = Z.of_nat (x / N).
+Proof. exact verify_layer_updates_gen. Qed.
+Print Assumptions C15_gen_layer_divisions.
